@@ -1219,7 +1219,7 @@ EXT3 = {
                             "(a catch-all selector is a legal list key); those scenarios carry no delete notifications, because the announcement of such a leaf's removal cannot be told from a wildcard delete.")),
     "C14": dict(level_text=(" Random part, further: the isolation clause as a metamorphic relation - the scenario is run again on a fresh cache with every operation addressed to the other targets left "
                             "out (the clock and the cache-wide refreshes stay), and everything stored and reported for the kept target, its metadata subtree included, must be identical in both "
-                            "runs; caches created with a server name (also in C03/C15); after Reset every registered metadata value is compared with that of a target just registered with a cache "
+                            "runs; caches created with a server name or with excluded metadata entries (WithExcludedMeta; also in C03/C15); after Reset every registered metadata value is compared with that of a target just registered with a cache "
                             "of the same options. Part owners (free-running, real scheduler inside a synctest bubble): 2-5 targets each driven by its own goroutine running a sequential script (updates, exact/subtree/glob "
                             "deletes, Reset, Remove, Add, Sync, Connect, ConnectError, queries) plus a refresher goroutine (UpdateMetadata, UpdateSize, Metadata, all-target queries) and 0-2 bystander "
                             "targets; 40 aligned-start rounds per case. Because no operation on one target may change another, under every schedule each target holds after each of its owner's operations "
